@@ -18,6 +18,7 @@ func (e *Engine) execUnOp(fc *fnCtx, b *ssa.BasicBlock, st *State, x *ssa.UnOp) 
 		}
 		v.GoT = x.Type()
 		fc.regs[x] = v
+		e.loadFacts(st, v, x.Type())
 	case token.NOT:
 		e.defineReg(fc, x, "Bool", not(e.val(fc, x.X).T))
 	case token.SUB:
@@ -384,4 +385,32 @@ func (e *Engine) execNext(fc *fnCtx, b *ssa.BasicBlock, st *State, x *ssa.Next) 
 	// mark the iterator as modified so enclosing loops havoc nothing else
 	st.Cells[rng] = Val{T: e.sc.declareConst("mapiter", "Int"), S: "Int"}
 	fc.regs[x] = Val{S: "Tuple", Tuple: []Val{{T: okv, S: "Bool"}, k, v}, GoT: x.Type()}
+}
+
+// loadFacts: invariants of every reachable state for a value just read from memory:
+// references are at most the allocation counter, slices are well-formed, sized integers are in range.
+func (e *Engine) loadFacts(st *State, v Val, t types.Type) {
+	if v.Clo != nil || len(v.Tuple) > 0 || v.Addr != nil || t == nil {
+		return
+	}
+	key := v.T + "@" + st.Heaps[allocHeap] + st.Reach
+	if e.factDone == nil {
+		e.factDone = map[string]bool{}
+	}
+	if e.factDone[key] {
+		return
+	}
+	e.factDone[key] = true
+	switch u := t.Underlying().(type) {
+	case *types.Pointer, *types.Map, *types.Chan, *types.Signature, *types.Interface:
+		e.sc.assert(implies(st.Reach, "(<= "+v.T+" "+e.allocCounter(st)+")"))
+		if _, isI := u.(*types.Interface); !isI {
+			e.sc.assert(implies(st.Reach, "(>= "+v.T+" 0)"))
+		}
+	case *types.Slice:
+		e.rangeFacts(st.Reach, v, t)
+		e.sc.assert(implies(st.Reach, "(<= (s_ref "+v.T+") "+e.allocCounter(st)+")"))
+	case *types.Basic:
+		e.rangeFacts(st.Reach, v, t)
+	}
 }
